@@ -415,6 +415,40 @@ def gen_scenarios(rng, tier):
     return out
 
 
+def calc_mod(p, r, s, x):
+    q = ((x * r) >> s) & 0xFFFFFFFF
+    return (x - q * p) & 0xFFFFFFFF
+
+
+def prime_search(rows):
+    """L3 search for the table lemma: for every row that fails the side condition of `calc_mod_eq` look for a hash whose
+    `_calc_mod` differs from `% prime`, and when the row is reachable (`_insert` only visits even indices) build a
+    scenario that grows a table to that row and uses the hash."""
+    out = []
+    for i, (p, r, s, g) in enumerate(rows):
+        e = r * p - (1 << s)
+        ok = 0 < p < (1 << 32) and r < (1 << 32) and s < 64 and e >= 0 and e << 32 <= 2 << s and \
+            e * (((1 << 32) // p) * p - 1) < (1 << s) and g == p * 9 // 10
+        if ok:
+            continue
+        cands = []
+        for k in list(range(1, 200)) + [((1 << 32) // p) - j for j in range(0, 200)]:
+            for d in (0, -1, 1):
+                x = k * p + d
+                if 0 <= x < (1 << 32):
+                    cands.append(x)
+        bad = [x for x in cands if calc_mod(p, r, s, x) != x % p]
+        if not bad or i % 2 or i > 10:
+            continue
+        need = rows[i - 2][3] + 2 if i >= 2 else 2
+        ops = ["A new 65536 0", "H new 1"]
+        ops += ["H 1 insert %d %d" % (k, k) for k in range(1, need + 1)]
+        for x in bad[:3]:
+            ops += ["H 1 insert %d %d" % (x, x), "H 1 dump", "H 1 get %d %d" % (x, x)]
+        out.append(("prime_row_%d" % i, ops))
+    return out
+
+
 # ------------------------------------------------------------------------------------------------
 # running
 # ------------------------------------------------------------------------------------------------
@@ -499,6 +533,7 @@ def run(res):
         broken.append("prime table seen by the compiler (%s) differs from the table the translator generated (%s)" % (pi, pm))
 
     scenarios = gen_scenarios(rng, res.tier)
+    scenarios += prime_search(rows)
 
     def one(sc):
         name, ops = sc
